@@ -191,6 +191,23 @@ pub fn ris_op(op: &str, a: &[&str]) -> R {
             let r = RistrettoPoint::double_and_compress_batch(pts.iter());
             push_hex_list(&mut o, r.iter().map(|c| c.to_bytes()));
         }
+        // `ris.double_compress_batch_rep LIST` with items `ENC:j`: the element ENC held as its j-th coset representative
+        // (`P + EIGHT_TORSION[2j]`, hook `ristretto_add_torsion`): same group elements, different internal representatives
+        "double_compress_batch_rep" => {
+            arity(a, 1)?;
+            let mut pts = Vec::new();
+            for it in list(a[0])? {
+                let (e, j) = it.split_once(':').ok_or(BADREQ)?;
+                let j: usize = j.parse().map_err(|_| BADREQ)?;
+                if j > 3 {
+                    return Err(BADREQ);
+                }
+                let p = dec_ris(&curve25519_dalek::ristretto::CompressedRistretto(hx::<32>(e)?))?;
+                pts.push(vh::ristretto_add_torsion(&p, j));
+            }
+            let r = RistrettoPoint::double_and_compress_batch(pts.iter());
+            push_hex_list(&mut o, r.iter().map(|c| c.to_bytes()));
+        }
         "msm_ct" => {
             let (s, p) = msm_args(a, false)?;
             let p: Vec<RistrettoPoint> = p.into_iter().flatten().collect();
